@@ -253,10 +253,10 @@ H("C01", "mpq", _BP, "quick", "canary", ["c01d_canary"], _pathfns, "vacuity twin
 # =============================================================================== C17
 RS = "std::hash::RandomState::new -> fixed SipHash keys (1,2) (environment model; HashMap keys are concrete)"
 _D = "verif_kani_writer"
-H("C17", "cdbc", _D, "quick", "C17.a field codec: write_value(parse_field_value(b)) == b and both move FieldType::size() bytes",
+H("C17", "cdbc", _D, "quick", "C17.a field codec: parse_field_value(write_value(v)) == v and both move FieldType::size() bytes",
   ["c17a_field_codec_%s" % t for t in ("int32", "uint32", "float32", "bool", "uint8", "int8", "uint16", "int16")],
   ["field_parser::parse_field_value", "writer::DbcWriter::write_value", "schema::FieldType::size"],
-  "one harness per scalar field type, 4 content bytes symbolic", "one scalar field (String fields resolve through the string block: thorough)", stubs=[FMT, RS], timeout=900)
+  "one harness per scalar field type, value payload symbolic", "one scalar field (String fields resolve through the string block: thorough)", stubs=[FMT, RS], timeout=900)
 H("C17", "cdbc", _D, "quick", "C17.b header the writer emits is accepted by the reader's validation of the same schema; size law for the empty table",
   ["c17b_header_accepted_1_field", "c17b_header_accepted_2_fields", "c17b_header_accepted_3_fields"],
   ["writer::DbcWriter::write_records", "writer::DbcWriter::build_string_block", "header::DbcHeader::parse", "schema::Schema::validate", "schema::Schema::record_size"],
@@ -386,9 +386,9 @@ H("C05", "mpq", _HD, "quick", "C05.mpq.1 MpqHeader::read is total on arbitrary (
   ["header::MpqHeader::read_with_limits", "security::validate_header_security", "header::MpqHeader::{sector_size,get_hash_table_pos,get_block_table_pos,get_archive_size}"],
   "32/44/68/208 header bytes fully symbolic behind the assigned magic and version tag; symbolic truncation length", "one header", stubs=[FMT], timeout=900)
 H("C05", "mpq", _HD, "quick", "C05.mpq.1 header discovery terminates and reports no header for a file that contains none (incl. user-data headers pointing anywhere)",
-  ["c05_mpq_find_header_terminates"], ["header::find_header_with_limits"],
-  "file of <= 1040 bytes (symbolic length): 16 symbolic bytes at each scanned offset (0, 512), zeros elsewhere", "3 scan steps, unwind 6",
-  assumes=["no MPQ header magic at the scanned offsets"], stubs=[FMT], timeout=900, termination_of=["find_header_with_limits"])
+  ["c05_mpq_find_header_no_magic", "c05_mpq_find_header_userdata_beyond_eof", "c05_mpq_find_header_userdata_inside"], ["header::find_header_with_limits"],
+  "file of 528 bytes: 16 symbolic bytes at each scanned offset (0, 512), zeros elsewhere; user-data header with header_offset >= file size (symbolic) or pointing at offset 512", "2 scan steps, unwind 6",
+  assumes=["no MPQ header magic where none is intended"], stubs=[FMT], timeout=900, termination_of=["find_header_with_limits"])
 H("C05", "mpq", _HD, "quick", "canary", ["c05_mpq_header_canary"], ["header::MpqHeader::read"], "vacuity twin", "-", expect="canary", stubs=[FMT])
 H("C05", "mpq", _AD, "quick", "C05.mpq.8 ADPCM decoder is total on arbitrary input (no table index out of range), output bounded by the requested size",
   ["c05_adpcm_mono_total_n5", "c05_adpcm_mono_total_n12", "c05_adpcm_stereo_total_n12", "c05_adpcm_next_step_index_in_table"],
@@ -401,6 +401,17 @@ H("C05", "mpq", _TH, "quick", "C05.mpq.4 classic table decoders are total; looku
   "table data of 0/15/16/32 symbolic bytes x declared entry counts {0,1,2,3,4,2^28,2^32-1}; 2-slot table with fully symbolic entries", "<= 2 entries",
   stubs=[FMT], timeout=900, termination_of=["find_file"])
 H("C05", "mpq", _TH, "quick", "canary", ["c05_tables_canary"], ["tables::HashTable::from_bytes"], "vacuity twin", "-", expect="canary", stubs=[FMT])
+
+# ------------------------------------------------------------------------------- C06.b in-place add path
+_c06bf = ["modification::MutableArchive::prepare_file_data", "archive::Archive::read_file", "archive::decrypt_file_data", "crypto::encrypt_block"]
+H("C06", "mpq", _M, "quick", "C06.b in-place add: bytes and flags produced by prepare_file_data are read back bit-identically (plain / abstract codec / encrypted)",
+  ["c06b_inplace_plain", "c06b_inplace_codec", "c06b_inplace_enc", "c06b_inplace_enc_codec"], _c06bf,
+  "file content [u8; 5] symbolic, codec payload symbolic; options concrete per harness", "one 5-byte file placed at offset 512",
+  stubs=[FMT, MEMFILE, CODEC, RS, "crypto::hash_string -> fixed table for the names a..d (the key value is arbitrary but equal on both sides)"],
+  abstraction_stubs=["compress", "decompress", "hash_string"], timeout=900)
+H("C06", "mpq", _M, "quick", "C06.b in-place add with the position-adjusted key (regression harness of fixed finding KF-C06-inplace-fixkey)", ["c06b_inplace_enc_fix_witness"], _c06bf,
+  "file content symbolic, encrypt + fix_key", "-", stubs=[FMT, MEMFILE, CODEC, RS, HS], abstraction_stubs=["compress", "decompress", "hash_string"],
+  expect="witness:KF-C06-inplace-fixkey", timeout=900)
 
 
 # =============================================================================== per-property fragments
